@@ -179,7 +179,7 @@ impl<'tcx> Cx<'tcx> {
     fn tys(&self, t: Ty<'tcx>) -> String {
         let mut s = String::new();
         self.ty(t, 0, &mut s);
-        trunc(s, 600)
+        trunc(s, 4000)
     }
 
     fn place(&self, p: &Place<'tcx>, out: &mut String) {
@@ -571,7 +571,7 @@ impl<'tcx> Cx<'tcx> {
                         out.push_str("],\"aga\":");
                         let mut s = String::new();
                         self.args(ga, 0, &mut s);
-                        esc(&trunc(s, 400), out);
+                        esc(&trunc(s, 12000), out);
                     }
                     AggregateKind::Closure(d, _) | AggregateKind::Coroutine(d, _) | AggregateKind::CoroutineClosure(d, _) => {
                         out.push_str(",\"closure\":");
